@@ -389,6 +389,15 @@ class SolverIR:
                     return None
                 start = sv.term
             return [v], start, rev
+        if isinstance(node, ast.Call) and isinstance(node.func, ast.Name) and node.func.id == 'pairwise' and len(node.args) == 1 \
+                and 'pairwise' not in self.model.functions:
+            # itertools.pairwise(view): the view zipped with itself shifted by one position (in the view's own direction)
+            v = self._view(node.args[0], st, frame)
+            if v is None:
+                return None
+            one = Rat.const(1)
+            return [{'first': v['first'], 'count': v['count'] - one, 'dir': v['dir'], 'base': v['base']},
+                    {'first': v['first'] + v['dir'], 'count': v['count'] - one, 'dir': v['dir'], 'base': v['base']}], None, rev
         if isinstance(node, ast.Call) and isinstance(node.func, ast.Name) and node.func.id == 'zip' and node.args:
             vs = [self._view(a, st, frame) for a in node.args]
             if any(v is None for v in vs):
